@@ -59,21 +59,33 @@ def forbidden_scan():
     return hits
 
 
+def prop_table():
+    path = os.path.join(LEAN, 'PROPS.json')
+    return json.load(open(path)) if os.path.exists(path) else {}
+
+
 def theorem_names(prop):
-    """property theorems = every `theorem Cnn_*` of LazyDs/Props/Cnn.lean"""
+    """(modules, fully qualified property theorems): from lean/PROPS.json when listed there, otherwise
+    every `theorem Cnn_*` of LazyDs/Props/Cnn.lean"""
+    tab = prop_table()
+    mods, names = [], []
+    if prop in tab:
+        mods += tab[prop]['modules']
+        names += tab[prop]['theorems']
     path = os.path.join(LEAN, 'LazyDs', 'Props', f'{prop}.lean')
-    if not os.path.exists(path):
-        return []
-    src = strip_comments(open(path).read())
-    return re.findall(r'^theorem\s+(' + prop + r'_\w+)', src, flags=re.M)
+    if os.path.exists(path):
+        src = strip_comments(open(path).read())
+        mods.append(f'LazyDs.Props.{prop}')
+        names += ['LazyDs.' + n for n in re.findall(r'^theorem\s+(' + prop + r'_\w+)', src, flags=re.M)]
+    return mods, names
 
 
 def audit(prop):
     """returns (names, {name: [axioms]}, undischarged) using `#print axioms`"""
-    names = theorem_names(prop)
+    mods, names = theorem_names(prop)
     if not names:
         raise Infra(f'no property theorems found for {prop}')
-    src = f'import LazyDs.Props.{prop}\nopen LazyDs\n' + ''.join(f'#print axioms {n}\n' for n in names)
+    src = ''.join(f'import {m}\n' for m in mods) + ''.join(f'#print axioms {n}\n' for n in names)
     tmp = os.path.join(LEAN, '.lake', f'audit_{prop}_{os.getpid()}.lean')
     os.makedirs(os.path.dirname(tmp), exist_ok=True)
     with open(tmp, 'w') as f:
@@ -86,9 +98,9 @@ def audit(prop):
         raise Infra('axiom audit failed:\n' + out[-3000:])
     axioms = {}
     for m in re.finditer(r"'([\w.]+)' depends on axioms: \[([^\]]*)\]", out):
-        axioms[m.group(1).split('.')[-1]] = [a.strip() for a in m.group(2).replace('\n', ' ').split(',') if a.strip()]
+        axioms[m.group(1)] = [a.strip() for a in m.group(2).replace('\n', ' ').split(',') if a.strip()]
     for m in re.finditer(r"'([\w.]+)' does not depend on any axioms", out):
-        axioms[m.group(1).split('.')[-1]] = []
+        axioms[m.group(1)] = []
     bad = [n for n in names if n not in axioms or not set(axioms[n]) <= ALLOWED_AXIOMS]
     return names, axioms, bad
 
